@@ -386,9 +386,13 @@ def gen_file(rng, natoms=None, ninstr=None, with_qpeaks=True, restraints=True, k
             used = [l['cls'] for l in lines if l['kind'] == 'resi' and l['cls']]
             cls = rng.choice(used) if used and rng.random() < 0.7 else rng.choice(['', 'TOL', 'CCF3', 'thf', 'B12', '3HB'])
             cls = rng.choice([cls, cls.lower(), cls.lower(), cls.upper(), cls.capitalize()])     # classes are not case-sensitive
+            if cls and rng.random() < 0.12:
+                num = -num          # residue numbers from -999 to 9999 are allowed
             toks = ['RESI'] + ([cls] if cls else []) + [str(num)]
             if cls and rng.random() < 0.4:
                 toks = ['RESI', str(num), cls]
+            if cls and rng.random() < 0.15:
+                toks = toks + [str(rng.choice([7, 30, 1000]))]       # RESI class number alias
             add(toks, 'resi', number=num, cls=cls)
             ctx['resi'] = (num, cls)
             # a residue that was copied and not moved yet: an atom line of an earlier residue once more, character by character
